@@ -19,7 +19,7 @@ def errName : Err → String
   | .valueError => "ValueError"
   | .typeError => "TypeError"
   | .attributeError => "AttributeError"
-  | .recursionError => "RecursionError"
+  | .nonTermination => "NonTermination"
 
 def exc {α : Type} (f : α → Json) (r : Except Err α) : Json :=
   match r with
@@ -50,9 +50,9 @@ def tgRec : Option Telegram.Record → Json
 def handle (f : String) (j : Json) : Option Json :=
   match f with
   | "tw_is" => some (jbool (Twitter.is_twitter_url (s j "url")))
-  | "tw_parse" => some (exc twRec (Twitter.parse_twitter_url (fieldNat j "limit") (s j "url")))
+  | "tw_parse" => some (exc twRec (Twitter.parse_twitter_url (s j "url")))
   | "tw_extract" =>
-    some (exc joptStr (Twitter.extract_screen_name_from_twitter_url (fieldNat j "limit") (s j "url")))
+    some (exc joptStr (Twitter.extract_screen_name_from_twitter_url (s j "url")))
   | "tw_normalize" => some (joptStr (Twitter.normalize_screen_name (s j "s")))
   | "ig_is" => some (jbool (Instagram.is_instagram_url (s j "url")))
   | "ig_parse" => some (exc igRec (Instagram.parse_instagram_url (s j "url")))
